@@ -319,7 +319,8 @@ class PlugsSupport(object):
             ctx.events.append('eP+%d' % idx)
             ctx.inst.append('I+:%d:%d' % (idx, self_.serial))
         if beh.get('ctor') == 'raise':
-          raise RuntimeError('plug %d constructor failure' % idx)
+          # (also a constructor that ends with something that is not an `Exception`: sys.exit() in a driver)
+          raise (RuntimeError, SystemExit)[idx % 2]('plug %d constructor failure' % idx)
 
       def tear_down(self_, idx=idx, beh=beh):
         with ctx.lock:
